@@ -407,6 +407,37 @@ func runCheck(o *Options) (int, *Evidence) {
 			jobs = append(jobs, &job{q: q, text: pre + body})
 		}
 	}
+	type seQuery struct {
+		x    *Exec
+		path *bePath
+		site string // "" = feasibility of the path itself
+		j    *job
+	}
+	var seqs []*seQuery
+	if o.prop == "C16" {
+		for _, x := range execs {
+			for _, bp := range x.bePaths {
+				if bp.kind != "for" {
+					continue
+				}
+				mk := func(extra string, site string) {
+					pc := bp.pc
+					if extra != "" {
+						pc = append(pc[:len(pc):len(pc)], extra)
+					}
+					q := &Query{Ob: x.fn.name() + "#stoprule:path", Kind: "stop-feas", Func: x.fn.name(), Tags: []string{"C16"}, PC: pc, Goal: "false", Expect: "sat", Trail: bp.trail}
+					j := &job{q: q, text: prelude + x.render(q)}
+					seqs = append(seqs, &seQuery{x: x, path: bp, site: site, j: j})
+				}
+				mk("", "")
+				for _, pl := range bp.polls {
+					if pl.stop != "true" && pl.stop != "false" {
+						mk(pl.stop, pl.site)
+					}
+				}
+			}
+		}
+	}
 	tmp, _ := os.MkdirTemp("", "govc-"+o.prop+"-")
 	defer func() {
 		if !o.dump {
@@ -417,7 +448,87 @@ func runCheck(o *Options) (int, *Evidence) {
 	}()
 	d := &Discharger{dir: tmp, cache: filepath.Join(o.verif, ".cache"), noCache: os.Getenv("VERIF_NOCACHE") != "" || o.tier == "thorough",
 		timeout: o.timeout, seed: o.seed, all: o.tier == "thorough"}
-	d.solveAll(jobs, 16)
+	allJobs := jobs
+	for _, sq := range seqs {
+		allJobs = append(allJobs, sq.j)
+	}
+	d.solveAll(allJobs, 16)
+	// C16, rule SE (DESIGN.md Appendix B): every feasible path through one iteration of an
+	// unbounded loop passes a poll of the stop signals whose stop branch leaves the loop.
+	type seLoop struct {
+		x     *Exec
+		ord   int
+		line  string
+		paths []*bePath
+	}
+	seLoops := map[string]*seLoop{}
+	feasible := map[*bePath]bool{}
+	stopTaken := map[*bePath]map[string]bool{}
+	for _, sq := range seqs {
+		if sq.site == "" {
+			feasible[sq.path] = sq.j.res.Status != "unsat"
+		} else if sq.j.res.Status != "unsat" {
+			if stopTaken[sq.path] == nil {
+				stopTaken[sq.path] = map[string]bool{}
+			}
+			stopTaken[sq.path][sq.site] = true
+		}
+	}
+	for _, x := range execs {
+		for _, bp := range x.bePaths {
+			if bp.kind != "for" || o.prop != "C16" {
+				continue
+			}
+			key := fmt.Sprintf("%s#stoprule:SE:loop[%d]", x.fn.name(), bp.ord)
+			if seLoops[key] == nil {
+				seLoops[key] = &seLoop{x: x, ord: bp.ord, line: bp.line}
+			}
+			seLoops[key].paths = append(seLoops[key].paths, bp)
+		}
+	}
+	var seObs []*Obligation
+	var seKeys []string
+	for k := range seLoops {
+		seKeys = append(seKeys, k)
+	}
+	sort.Strings(seKeys)
+	for _, k := range seKeys {
+		l := seLoops[k]
+		stopBack := map[string]bool{}
+		for _, bp := range l.paths {
+			if !feasible[bp] {
+				continue
+			}
+			for _, pl := range bp.polls {
+				if pl.stop == "true" || stopTaken[bp][pl.site] {
+					stopBack[pl.site] = true
+				}
+			}
+		}
+		ob := &Obligation{Name: k, Kind: "stoprule", Func: l.x.fn.name(), Tags: []string{"C16"}, Status: "discharged", Solver: map[string]int{}}
+		for _, bp := range l.paths {
+			if !feasible[bp] {
+				continue
+			}
+			ok := false
+			for _, pl := range bp.polls {
+				if !stopBack[pl.site] {
+					ok = true
+				}
+			}
+			if !ok {
+				ob.Status = "failed-sat"
+				var sites []string
+				for _, pl := range bp.polls {
+					sites = append(sites, pl.site)
+				}
+				q := &Query{Ob: k, Kind: "stoprule", Func: l.x.fn.name(), Tags: []string{"C16"}, Trail: bp.trail,
+					Goal: "an iteration of the loop at line " + l.line + " can repeat after a stop signal: polls on the path " + fmt.Sprint(sites) + ", none of whose stop branches leaves the loop"}
+				ob.Queries = append(ob.Queries, &job{q: q, res: Result{Status: "sat", Solver: "stop-rule", Output: q.Goal}})
+			}
+		}
+		seObs = append(seObs, ob)
+	}
 
 	// group into obligations
 	obs := map[string]*Obligation{}
@@ -431,12 +542,19 @@ func runCheck(o *Options) (int, *Evidence) {
 		}
 		ob.Queries = append(ob.Queries, j)
 	}
+	for _, ob := range seObs {
+		obs[ob.Name] = ob
+		names = append(names, ob.Name)
+	}
 	sort.Strings(names)
 	byBackend := map[string]int{}
 	var solverSeconds float64
 	cached := 0
 	for _, n := range names {
 		ob := obs[n]
+		if ob.Kind == "stoprule" {
+			continue
+		}
 		if ob.Kind == "cover" {
 			// vacuity: precondition covers must not be unsat; at least one return must be reachable
 			ob.Status = "vacuous"
